@@ -234,6 +234,11 @@ pub mod dec {
 	/// msg_len): a header announcing more than this many bytes that are not in
 	/// the input is excluded after the finding was recorded.
 	pub const FRAME_ANNOUNCE_CAP: u64 = 4 << 20;
+	/// ... and no more than the header rule lets through for any message type on any chain type (4 x the
+	/// nominal maximum of the largest type: 4 x 2 x 1 348 032 bytes for a mainnet segment response). The
+	/// recorded findings are about lengths the header rule ACCEPTS; a header announcing more than this is
+	/// refused before anything is allocated, is not excluded, and must stay refused.
+	pub const FRAME_ACCEPT_MAX: u64 = 4 * 2 * 1_348_032;
 
 	/// does some message header of the stream announce > FRAME_ANNOUNCE_CAP bytes that the input does not hold
 	pub fn frame_overannounce(data: &[u8]) -> bool {
@@ -244,7 +249,7 @@ pub mod dec {
 			let len = u64::from_be_bytes(a);
 			let rest = (data.len() - at - 11) as u64;
 			if len > rest {
-				return len > FRAME_ANNOUNCE_CAP;
+				return len > FRAME_ANNOUNCE_CAP && len <= FRAME_ACCEPT_MAX;
 			}
 			at += 11 + len as usize;
 		}
@@ -2954,7 +2959,7 @@ mod hs {
 		ev.assume("allocation bounds pinned against honest maximal messages (calibration cases, re-measured in every run, see honest_alloc_max): a full mainnet block / body / maximal transaction of 1.37 MB needs a largest single request of 1.49 MB and 2.9 MB live; a 2048-leaf rangeproof segment of 1.46 MB needs 1.41 MB / 1.47 MB; a framed full block needs exactly its body length in one request: all far below 4 MiB + 64 x len and 16 MiB + 64 x len, so the designed constants were kept");
 		ev.assume("the counting global allocator sees every heap request of the worker; a single request above 256 MiB is refused (the worker aborts, which is the observable), the address space of a worker is capped at 6 GiB");
 		ev.assume("MMR sizes handed to Segment::validate are sizes of real MMRs (they come from a PoW-validated archive header); MerkleProof::verify is only measured for paths of at most 128 hashes");
-		ev.assume("the two open known findings (message body buffered from the announced length in Codec::read_inner and msg::read_body / read_discard) are excluded by construction: framed inputs announcing more than 4 MiB that are not in the input are not generated, one directed case each is kept and reported through the known-findings list; the six repaired findings are no longer excluded anywhere: their directed cases are kept and must pass");
+		ev.assume("the two open known findings (message body buffered from the announced length in Codec::read_inner and msg::read_body / read_discard) are excluded by construction: framed inputs announcing more than 4 MiB (and no more than the 10.8 MB the header rule accepts for the largest message type) that are not in the input are not generated — longer announcements are generated and must be refused before anything is allocated, one directed case each is kept and reported through the known-findings list; the six repaired findings are no longer excluded anywhere: their directed cases are kept and must pass");
 		ev.assume("StreamingReader (msg::read_item) has no caller on network data in this tree and is not an entry point; Codec::read is driven over a loopback socket whose write side is closed after the input, so read timeouts never fire");
 		ev.extra("entry_points", json!(ENTRIES.iter().map(|e| e.name).collect::<Vec<_>>()));
 		ev.extra("alloc_limits", json!({"largest_request": "4 MiB + 64 x len", "peak_live": "16 MiB + 64 x len", "hard_single_request": ALLOC_HARD_LIMIT}));
